@@ -49,7 +49,12 @@ func c19Apply(w *world.W, e c19Ev) *world.Obs {
 			if e.Origin == "post500" {
 				st = 500
 			}
-			return o.Respond(c, RS{Status: st, NoTok: true, Body: []byte("post")}), nil
+			var h [][2]string
+			if e.Origin == "post200loc" {
+				// names the other resource u in a non-canonical but equivalent spelling
+				h = H("Location", "http://EXAMPLE.com:80/%72", "Content-Location", "http://example.com:80/r#frag")
+			}
+			return o.Respond(c, RS{Status: st, NoTok: true, Body: []byte("post"), H: h}), nil
 		}
 		cond := c.Header.Get("If-None-Match") != "" || c.Header.Get("If-Modified-Since") != ""
 		var h [][2]string
@@ -108,6 +113,7 @@ func c19RunCycle(t *testing.T, path []c19Ev, pump, cycleLen int) (foot c19Foot, 
 	synctest.Test(t, func(t *testing.T) {
 		w := world.New(world.Opt{})
 		defer w.Close()
+		indexOf := map[string]string{} // URL -> key of its index, as observed in GET exchanges
 		for i, e := range path {
 			var before map[string][]byte
 			if e.Method == "POST" {
@@ -117,9 +123,19 @@ func c19RunCycle(t *testing.T, path []c19Ev, pump, cycleLen int) (foot c19Foot, 
 				}
 			}
 			o := c19Apply(w, e)
-			if e.Origin == "post200" && leak == "" && len(o.Ops) > 0 && o.Ops[0].Kind == "get" && o.Ops[0].Err == nil {
-				// invalidation: the index read first and every id it listed must be gone
-				idx := o.Ops[0].Key
+			if e.Method == "GET" && len(o.Ops) > 0 && o.Ops[0].Kind == "get" {
+				indexOf[e.URL] = o.Ops[0].Key
+			}
+			invalidated := ""
+			switch e.Origin {
+			case "post200":
+				invalidated = indexOf[e.URL]
+			case "post200loc":
+				invalidated = indexOf[U] // named by Location / Content-Location
+			}
+			if invalidated != "" && leak == "" && before[invalidated] != nil {
+				// invalidation: the index of the invalidated URI and every id it listed must be gone
+				idx := invalidated
 				var refs []struct {
 					ID string `json:"id"`
 				}
@@ -188,7 +204,7 @@ func c19Scenarios(tier string) []c19Scenario {
 					evs = append(evs, get(U, "1", og, v, "200"))
 				}
 			}
-			evs = append(evs, post(U, true), post(U, false), get(U2, "", "long", "", "304"))
+			evs = append(evs, post(U, true), post(U, false), get(U2, "", "long", "", "304"), c19Ev{"POST", U2, "", "post200loc", "", ""})
 			scs = append(scs, c19Scenario{fmt.Sprintf("%s vary{%q,%q}", og, vp[0], vp[1]), evs})
 		}
 	}
@@ -316,6 +332,57 @@ func customC19(t *testing.T, e *mc.Explorer) *mc.ShardResult {
 		}
 		res.Notes[fmt.Sprintf("max index entries %d", maxIdx)]++
 	}
+	// ---- second pass, with the clock running: every cycle of one or two events of a scenario is repeated 12
+	// times with one second between exchanges (timestamps differ, so there is no fixpoint to reach); the
+	// footprint after 4, 8 and 12 repetitions must not grow strictly.
+	cycles := 0
+	for si, sc := range c19Scenarios(e.Tier) {
+		if si%e.Shards != e.Shard {
+			continue
+		}
+		var cyc [][]c19Ev
+		for _, a := range sc.Events {
+			cyc = append(cyc, []c19Ev{a})
+			for _, b := range sc.Events {
+				if a != b {
+					cyc = append(cyc, []c19Ev{a, b})
+				}
+			}
+		}
+		for _, cy := range cyc {
+			if !e.Deadline.IsZero() && time.Now().After(e.Deadline) {
+				res.Exhaustive = false
+				break
+			}
+			var f [3]c19Foot
+			synctest.Test(t, func(t *testing.T) {
+				w := world.New(world.Opt{})
+				defer w.Close()
+				for rep := 1; rep <= 12; rep++ {
+					for _, ev := range cy {
+						c19Apply(w, ev)
+						world.Advance(secs(1))
+					}
+					if rep%4 == 0 {
+						f[rep/4-1] = c19Measure(w)
+					}
+				}
+			})
+			cycles++
+			res.Executions++
+			res.Transitions += int64(12 * len(cy))
+			if (f[1].maxIndex > f[0].maxIndex && f[2].maxIndex > f[1].maxIndex) || (f[1].keys > f[0].keys && f[2].keys > f[1].keys) {
+				var names []string
+				for _, ev := range cy {
+					names = append(names, c19EvClass(ev))
+				}
+				path := append([]c19Ev{{Method: "CLOCK"}}, cy...)
+				c19Add(viol, e, "unbounded growth with the clock running: repeating "+strings.Join(names, " ; "),
+					fmt.Sprintf("repeating %v with one second between exchanges: after 4/8/12 repetitions the largest index has %d/%d/%d entries and the store %d/%d/%d keys", cy, f[0].maxIndex, f[1].maxIndex, f[2].maxIndex, f[0].keys, f[1].keys, f[2].keys), sc, path)
+			}
+		}
+	}
+	res.Extra["clocked_cycles_pumped"] = cycles
 	sigs := make([]string, 0, len(viol))
 	for s := range viol {
 		sigs = append(sigs, s)
@@ -352,6 +419,25 @@ func replayC19(t *testing.T, v *mc.Violation) bool {
 		if p.Label == "replay" {
 			_ = json.Unmarshal([]byte(p.Desc), &path)
 		}
+	}
+	if len(path) > 0 && path[0].Method == "CLOCK" {
+		cy := path[1:]
+		var f [3]c19Foot
+		synctest.Test(t, func(t *testing.T) {
+			w := world.New(world.Opt{})
+			defer w.Close()
+			for rep := 1; rep <= 12; rep++ {
+				for _, ev := range cy {
+					c19Apply(w, ev)
+					world.Advance(secs(1))
+				}
+				if rep%4 == 0 {
+					f[rep/4-1] = c19Measure(w)
+				}
+			}
+		})
+		fmt.Printf("  | cycle %v, 1 s between exchanges: index entries after 4/8/12 repetitions %d/%d/%d, keys %d/%d/%d\n", cy, f[0].maxIndex, f[1].maxIndex, f[2].maxIndex, f[0].keys, f[1].keys, f[2].keys)
+		return (f[1].maxIndex > f[0].maxIndex && f[2].maxIndex > f[1].maxIndex) || (f[1].keys > f[0].keys && f[2].keys > f[1].keys)
 	}
 	foot, pumped, leak := c19Run(t, path, 3)
 	for cl := 2; cl <= 3 && cl <= len(path); cl++ {
